@@ -67,6 +67,61 @@ fn observe(a: &mut Automaton, t: &[&str]) -> String {
                 Err(e) => format!("ERR {:?}", e),
             }
         }
+        "stateinfo" => {
+            // every accessor of Automaton / State; probes = characters for class_of_char / char_maps_to_default
+            let probes = c.word();
+            let cid_show = |cid: ClassId| match cid {
+                ClassId::Complement => "c".to_string(),
+                ClassId::Interval(i) => i.to_string(),
+            };
+            let mut parts = Vec::new();
+            let fin: Vec<String> = a.final_states().map(|s| s.id().to_string()).collect();
+            parts.push(format!(
+                "i={} n={} nf={} F={}",
+                a.initial_state().id(),
+                a.num_states(),
+                a.num_final_states(),
+                fin.join(",")
+            ));
+            for (k, s) in a.states().enumerate() {
+                let st = a.state(k);
+                let ns = s.num_successors();
+                let d = match s.default_successor() {
+                    Some(d) => d.to_string(),
+                    None => "-".to_string(),
+                };
+                let dd = match a.default_successor(s) {
+                    Some(t) => t.id().to_string(),
+                    None => "-".to_string(),
+                };
+                let cls: Vec<String> = s.char_classes().map(cid_show).collect();
+                let nx: Vec<String> = s.char_classes().map(|cid| a.class_next(s, cid).id().to_string()).collect();
+                let picks: Vec<String> = s.char_picks().map(|x| x.to_string()).collect();
+                let rg: Vec<String> = s.char_ranges().map(cs_show).collect();
+                let pr: Vec<String> = probes
+                    .iter()
+                    .map(|&x| format!("{}{}", cid_show(s.class_of_char(x)), b(s.char_maps_to_default(x))))
+                    .collect();
+                parts.push(format!(
+                    "s{}:k={}:ns={}:hd={}:d={}:D={}:v={}{}{}:cls={}:nx={}:picks={}:rg={}:p={}",
+                    s.id(),
+                    st.id(),
+                    ns,
+                    b(s.has_default_successor()),
+                    d,
+                    dd,
+                    b(s.valid_class_id(ClassId::Complement)),
+                    b(s.valid_class_id(ClassId::Interval(0))),
+                    b(s.valid_class_id(ClassId::Interval(ns))),
+                    cls.join(","),
+                    nx.join(","),
+                    picks.join(","),
+                    rg.join(","),
+                    pr.join(",")
+                ));
+            }
+            parts.join(" ")
+        }
         "edges" => {
             let mut out = Vec::new();
             for s in a.states() {
